@@ -144,6 +144,10 @@ def build_ops():
 			predict),
 		"predict_args": (lambda m: predict(m, X, args=args, batch_size=2,
 			device="cpu"), predict),
+		"predict_bf16": (lambda m: predict(m, X.to(torch.bfloat16),
+			batch_size=2, device="cpu"), predict),
+		"ism_f16": (lambda m: saturation_mutagenesis(m, X.to(torch.float16),
+			batch_size=7, device="cpu"), saturation_mutagenesis),
 		"dls": (lambda m: deep_lift_shap(m, X, **DLS_KW, **rk),
 			deep_lift_shap),
 		"dls_dinuc_args_raw": (lambda m: deep_lift_shap(m, X, args=args,
@@ -286,6 +290,9 @@ class Alias(torch.nn.Module):
 def fresh(kind, seed=0):
 	if kind == "alias":
 		return Alias(seed).eval()
+	if kind == "f32":
+		# single-precision model (reduced-precision inputs are up-cast to it)
+		return Net("dls", seed).float().eval()
 	if kind == "bn-mixed":
 		# root in eval mode, the batch-norm layer left in train mode (as
 		# after model.eval(); model.norm.train()): a call that forgets to
@@ -492,7 +499,8 @@ def case_history(cls, params, rec):
 
 # ---------------------------------------------------------------------------
 
-EVENT_OPS = ["marginalize_annotations_dls", "ablate_annotations_dls",
+EVENT_OPS = ["predict_bf16", "ism_f16", "marginalize_annotations_dls",
+	"ablate_annotations_dls",
 	"dls", "dls_dinuc_args_raw", "dls_tensor_refs", "marginalize_dls",
 	"ablate_dls", "space_dls", "substitution_dls", "deletion_dls",
 	"product_dls", "predict", "predict_args", "ism", "marginalize", "ablate",
@@ -518,6 +526,8 @@ def plan(tier, seed):
 		if op in ("predict", "predict_args", "ism", "marginalize", "greedy",
 			"pairwise", "dls_tensor_refs"):
 			kinds = tuple(kinds) + ("bn-mixed",)
+		if op in ("predict_bf16", "ism_f16"):
+			kinds = ("f32",)
 		for kind in kinds:
 			units.append({"cls": "events", "op": op, "model": kind,
 				"tier": tier, "weight": 6})
@@ -563,6 +573,10 @@ def run_unit(unit, rec):
 		rec.setadd("event_counts", "%s/%s: %s" % (unit["op"], unit["model"],
 			sorted(counts.items())))
 		excs = ["Injected", "KeyboardInterrupt"]
+		# the call without any fault: the audit after a normal return
+		run_case("event-none", {"type": "event", "op": unit["op"],
+			"model": unit["model"], "kind": "forward", "k": 10 ** 6,
+			"exc": "Injected"}, rec)
 		for kind, K in sorted(counts.items()):
 			for k in range(1, K + 1):
 				for exc in excs + (["RuntimeError", "MemoryError"] if k in (1,
